@@ -1293,7 +1293,75 @@ fn exh_count(_t: Tier) -> u64 {
     exh_sizes().iter().sum()
 }
 
+/// What every builder starts from: `new()` followed by `build()` gives a value with nothing set —
+/// stated here field by field (the builder models above start from the crate's own `Default`, so a
+/// default that was not empty would otherwise go unnoticed by model and code alike).
+fn defaults_case() -> CaseResult {
+    use coset::cwt::{ClaimsSet, ClaimsSetBuilder};
+    fn hdr_empty(what: &str, h: &Header) -> CaseResult {
+        ensure!(h.alg.is_none() && h.crit.is_empty() && h.content_type.is_none() && h.key_id.is_empty() && h.iv.is_empty() && h.partial_iv.is_empty() && h.counter_signatures.is_empty() && h.rest.is_empty(), "{}: a header nobody set is not empty: {:?}", what, h);
+        ensure!(h.is_empty(), "{}: is_empty() is false for a header nobody set", what);
+        Ok(())
+    }
+    fn prot_empty(what: &str, p: &ProtectedHeader) -> CaseResult {
+        ensure!(p.original_data.is_none(), "{}: a protected header nobody set retains bytes", what);
+        hdr_empty(what, &p.header)
+    }
+    hdr_empty("HeaderBuilder", &HeaderBuilder::new().build())?;
+    hdr_empty("Header::default", &Header::default())?;
+    prot_empty("ProtectedHeader::default", &ProtectedHeader::default())?;
+    let s = CoseSignatureBuilder::new().build();
+    prot_empty("CoseSignatureBuilder", &s.protected)?;
+    hdr_empty("CoseSignatureBuilder", &s.unprotected)?;
+    ensure!(s.signature.is_empty() && s == CoseSignature::default(), "CoseSignatureBuilder: fresh value {:?}", s);
+    let v = CoseSignBuilder::new().build();
+    prot_empty("CoseSignBuilder", &v.protected)?;
+    hdr_empty("CoseSignBuilder", &v.unprotected)?;
+    ensure!(v.payload.is_none() && v.signatures.is_empty() && v == CoseSign::default(), "CoseSignBuilder: fresh value {:?}", v);
+    let v = CoseSign1Builder::new().build();
+    prot_empty("CoseSign1Builder", &v.protected)?;
+    hdr_empty("CoseSign1Builder", &v.unprotected)?;
+    ensure!(v.payload.is_none() && v.signature.is_empty() && v == CoseSign1::default(), "CoseSign1Builder: fresh value {:?}", v);
+    let v = CoseMacBuilder::new().build();
+    prot_empty("CoseMacBuilder", &v.protected)?;
+    hdr_empty("CoseMacBuilder", &v.unprotected)?;
+    ensure!(v.payload.is_none() && v.tag.is_empty() && v.recipients.is_empty() && v == CoseMac::default(), "CoseMacBuilder: fresh value {:?}", v);
+    let v = CoseMac0Builder::new().build();
+    prot_empty("CoseMac0Builder", &v.protected)?;
+    hdr_empty("CoseMac0Builder", &v.unprotected)?;
+    ensure!(v.payload.is_none() && v.tag.is_empty() && v == CoseMac0::default(), "CoseMac0Builder: fresh value {:?}", v);
+    let v = CoseEncryptBuilder::new().build();
+    prot_empty("CoseEncryptBuilder", &v.protected)?;
+    hdr_empty("CoseEncryptBuilder", &v.unprotected)?;
+    ensure!(v.ciphertext.is_none() && v.recipients.is_empty() && v == CoseEncrypt::default(), "CoseEncryptBuilder: fresh value {:?}", v);
+    let v = CoseEncrypt0Builder::new().build();
+    prot_empty("CoseEncrypt0Builder", &v.protected)?;
+    hdr_empty("CoseEncrypt0Builder", &v.unprotected)?;
+    ensure!(v.ciphertext.is_none() && v == CoseEncrypt0::default(), "CoseEncrypt0Builder: fresh value {:?}", v);
+    let v = CoseRecipientBuilder::new().build();
+    prot_empty("CoseRecipientBuilder", &v.protected)?;
+    hdr_empty("CoseRecipientBuilder", &v.unprotected)?;
+    ensure!(v.ciphertext.is_none() && v.recipients.is_empty() && v == CoseRecipient::default(), "CoseRecipientBuilder: fresh value {:?}", v);
+    let k = CoseKey::default();
+    ensure!(k.kty == KeyType::Assigned(iana::KeyType::Reserved) && k.key_id.is_empty() && k.alg.is_none() && k.key_ops.is_empty() && k.base_iv.is_empty() && k.params.is_empty(), "CoseKey::default is not the empty key: {:?}", k);
+    ensure!(Algorithm::default() == Algorithm::Assigned(iana::Algorithm::Reserved), "Algorithm::default is {:?}", Algorithm::default());
+    ensure!(CoseKeySet::default().0.is_empty(), "CoseKeySet::default is not empty");
+    let c = ClaimsSetBuilder::new().build();
+    ensure!(c.issuer.is_none() && c.subject.is_none() && c.audience.is_none() && c.expiration_time.is_none() && c.not_before.is_none() && c.issued_at.is_none() && c.cwt_id.is_none() && c.rest.is_empty() && c == ClaimsSet::default(), "ClaimsSetBuilder: fresh value {:?}", c);
+    let p = PartyInfoBuilder::new().build();
+    ensure!(p.identity.is_none() && p.nonce.is_none() && p.other.is_none() && p == PartyInfo::default(), "PartyInfoBuilder: fresh value {:?}", p);
+    let sp = SuppPubInfoBuilder::new().build();
+    prot_empty("SuppPubInfoBuilder", &sp.protected)?;
+    ensure!(sp.key_data_length == 0 && sp.other.is_none() && sp == SuppPubInfo::default(), "SuppPubInfoBuilder: fresh value {:?}", sp);
+    let kd = CoseKdfContextBuilder::new().build().to_vec().map_err(|e| format!("fresh KDF context fails to encode: {:?}", e))?;
+    ensure!(kd == vec![0x84, 0x00, 0x83, 0xf6, 0xf6, 0xf6, 0x83, 0xf6, 0xf6, 0xf6, 0x82, 0x00, 0x40], "CoseKdfContextBuilder: fresh value encodes to {}", crate::cbor::hex(&kd));
+    Ok(())
+}
+
 fn exh_case(idx: u64, ctx: &mut Ctx) -> CaseResult {
+    if idx == 0 {
+        defaults_case()?;
+    }
     let sizes = exh_sizes();
     let (s, mut i) = segment(idx, &sizes).ok_or("index out of range")?;
     let e = &entries()[s];
